@@ -49,6 +49,11 @@ class MxErr(Exception):
     pass
 
 
+class MxBaseErr(BaseException):
+    """A failure deriving from BaseException only (what a pool records when a task calls sys.exit(), a user's abort
+    signal...): as the exception of an INPUT future it is an exception like any other for the laws."""
+
+
 def _cancelled_error_class():
     from concurrent.futures import CancelledError
 
@@ -65,7 +70,7 @@ def _raise_here(exc):
 def _born(exc):
     try:
         _raise_here(exc)
-    except MxErr:
+    except (MxErr, MxBaseErr):
         pass
     return exc
 
@@ -112,6 +117,8 @@ class Run(object):
     def exc(self, eid):
         if eid == EORIG and self.p.get("orig_cancelled_error"):
             e = _cancelled_error_class()("e%d" % eid)
+        elif eid == EORIG and self.p.get("orig_base_exception"):
+            e = MxBaseErr("e%d" % eid)
         else:
             e = MxErr("e%d" % eid)
         self.ids[id(e)] = eid
@@ -143,7 +150,7 @@ class Run(object):
         now = tb_codes(exc)
         if not all(c in now for c in self.tb_seen.get(id(exc), ())):
             return False
-        if isinstance(exc, MxErr):
+        if isinstance(exc, (MxErr, MxBaseErr)):
             return _raise_here.__code__ in now
         return id(exc) in self.tb_seen
 
@@ -313,8 +320,15 @@ def build(p):
             xs += [1 if sg[0] else 0, sg[1], sg[2]]
         E.emit("Cfg", k=len(stages), a=p["inp"], b=p["timing"], c=p["form"], xs=xs)
         r0 = Run(0, p)
-        out = r0.build([(bool(sg[0]), r0.make_fn(i + 1, 0, sg[1]), r0.make_fn(i + 1, 1, sg[2]))
-                        for i, sg in enumerate(stages)])
+        try:
+            out = r0.build([(bool(sg[0]), r0.make_fn(i + 1, 0, sg[1]), r0.make_fn(i + 1, 1, sg[2]))
+                            for i, sg in enumerate(stages)])
+        except E.SchedAbort:
+            raise
+        except BaseException as ex:      # the f_* call / submit() itself raised: there is no future to look at
+            E.emit("CallRaise", f=0, s=type(ex).__name__)
+            E.emit("End")
+            return
         E.SCHED.track(0, out)
         if p.get("cancel") is not None:
             def canceller():
